@@ -223,7 +223,15 @@ func looseElements(sc *scene) []trees.Element {
 				out = append(out, trees.BoundingBoxElement(geometry.NewAABBFromPoints(pv(e.v[0]), pv(e.v[1]))))
 			} else {
 				c := e.v[0].add(e.v[1]).mul(0.5)
-				out = append(out, trees.BoundingBoxElement(geometry.NewAABB(pv(c), pv(e.v[1].sub(e.v[0])))))
+				size := e.v[1].sub(e.v[0])
+				if sc.signedZero {
+					for k := range size {
+						if size[k] == 0 && (len(out)+k)%2 == 0 {
+							size[k] = math.Copysign(0, -1) // a zero extent is a zero extent, whatever its sign
+						}
+					}
+				}
+				out = append(out, trees.BoundingBoxElement(geometry.NewAABB(pv(c), pv(size))))
 			}
 		}
 	}
